@@ -315,7 +315,8 @@ inline void gen_spec(spec_t& c, double max_log10_kappa, int hard_percent = 0)
     c.kappa      = std::min(std::pow(10.0, max_log10_kappa), std::max(1.0, c.kappa));
     c.layout     = *gen::range<int>(0, 2);
     const auto n = static_cast<size_t>(c.n);
-    c.gauss      = *rc::gen::container<std::vector<double>>(n * n, gen::normal());
+    // not shrunk entry by entry (n shrinks): hundreds of independently shrinkable reals make rapidcheck's shrinking quadratic
+    c.gauss      = *rc::gen::noShrink(rc::gen::container<std::vector<double>>(n * n, gen::normal()));
     c.u          = *rc::gen::container<std::vector<double>>(n, gen::real(0.0, 1.0));
     // minimiser: anywhere in the box, on its corners, or (rarely) the origin
     const int xs = *gen::range<int>(0, 9);
